@@ -92,75 +92,68 @@ def membership_loop(facts, ib, blocks, operand):
     return None
 
 
-def merge_loop_form(ctx, facts, roles, mb, vecp, cfg):
-    """merge written with loops: one outer loop over the operand list itself, one switch on the kind of its element;
-    an Array element contributes a clone of each member through one inner loop over its payload, every other kind
-    a clone of the element.  Returns False when this is not the shape (the adaptor-form clauses then report)."""
-    from . import panic as PN
-    from .core import strip_payload
-    outer = None
-    nexts = {}
-    for (h, bl, srcs) in PN.loops_of(mb):
-        for bi in sorted(bl):
-            t = mb.blocks[bi]["term"]
-            if t["k"] == "Call" and (callee_path(t) or "").endswith("::next"):
-                it = strip_refs(mb.trace(t["args"][0]))
-                while it[0] == "call" and it[1] and re.search(r"IntoIterator>::into_iter$|::iter$|Deref>::deref$", it[1]["path"]):
-                    it = strip_refs(it[2][0])
-                nexts[bi] = it
-                if it == ("arg", vecp):
-                    outer = bi
-    if outer is None:
-        return False
-
-    def is_elem(e, which=None):
-        x = strip_payload(strip_refs(e))
-        return x[0] == "call" and x[1] is not None and x[1]["path"].endswith("::next") and (x[3] == outer if which is None else x[3] == which)
-
-    ctx.ok("K1.one-pass", "merge makes one pass (a loop) over its operands (%s)" % cfg, nontrivial=True)
-    ctx.ok("K1.over-operands", "the pass iterates the operand list itself (%s)" % cfg, nontrivial=True)
-    sws = []
-    for bi in sorted(mb.reachable()):
-        t = mb.blocks[bi]["term"]
-        if t["k"] == "SwitchInt":
-            e = mb.trace(t["discr"])
-            if e[0] == "discr" and e[2] == VALUE:
-                sws.append((bi, is_elem(e[1])))
-    ctx.check(len(sws) == 1 and sws[0][1], "K1.kind-switch", "merge inspects the kind of each operand once (%s)" % cfg, "%d switches on a value's kind in merge (on the operand itself: %s)" % (len(sws), [x[1] for x in sws]), where=mb.where(), fn=mb.key, nontrivial=True)
-    inner_nexts = {bi: it for bi, it in nexts.items() if bi != outer}
+def merge_contributions(ctx, facts, mb, vecp, cfg):
+    """K1 on stream terms (rules/x_streams.py): whatever the spelling — fold + for_each, loops + push / extend,
+    flat_map + collect, helpers that view an operand as a slice — the vector merge returns is read as
+    `for each operand x of the operand list: <what x contributes>`, once per assumed kind of x."""
+    from . import x_streams as XS
+    R, terms = XS.read_vector(facts, mb, vecp, None)
+    # ---- the pass and what it runs over (no kind assumed)
+    unknown_src, wrong_src, passes = [], [], []
+    for t in terms:
+        tops = t[1] if t[0] == "seq" else [t]
+        fors = [x for x in tops if x[0] in ("for", "operands", "exit", "adapted", "members", "other")]
+        passes.append(len(fors) if not XS.find(t, "unknown") or fors else None)
+        for x in fors:
+            S = x if x[0] in ("operands", "adapted", "members", "other") else (x[1][1] if x[0] == "exit" else x[1])
+            if S == ("operands",):
+                continue
+            if XS.find(S, "unknown") or S[0] == "unknown":
+                unknown_src.append(S)
+            else:
+                wrong_src.append(S)
+    if any(n is None for n in passes) or not terms:
+        ctx.unread("K1.one-pass", "merge makes one pass over its operands (%s)" % cfg, "the vector merge returns is not read as passes over streams: %s" % "; ".join(R.show(t) for t in terms)[:300], where=mb.where(), fn=mb.key)
+    else:
+        ctx.check(all(n == 1 for n in passes), "K1.one-pass", "merge makes one pass over its operands (%s)" % cfg, "the vector merge returns is built as: %s" % "; ".join(R.show(t) for t in terms)[:300], where=mb.where(), fn=mb.key, nontrivial=True)
+    if wrong_src:
+        ctx.fail("K1.over-operands", "the pass iterates the operand list itself (%s)" % cfg,
+                 "merge iterates %s instead of its operand list: some operand shapes are rewritten before flattening (more than one level can be spliced)" % "; ".join(R.show(S) for S in wrong_src)[:200], where=mb.where(), fn=mb.key)
+    elif unknown_src:
+        ctx.unread("K1.over-operands", "the pass iterates the operand list itself (%s)" % cfg, "what merge iterates is not read: %s" % "; ".join(R.show(S) for S in unknown_src)[:200], where=mb.where(), fn=mb.key)
+    elif terms:
+        ctx.ok("K1.over-operands", "the pass iterates the operand list itself (%s)" % cfg, nontrivial=True)
+    # ---- per kind of operand
     for v in facts.variants(VALUE):
-        restrict = P.specialise_unit(roles, mb.key, lambda e, a, _v=v: _v if (a == VALUE and is_elem(e)) else None)
-        bl = restrict[mb.key]
-        pushed = []
-        for bi in sorted(bl):
-            t = mb.blocks[bi]["term"]
-            if t["k"] == "Call" and callee_path(t) == "std::vec::Vec::<T, A>::push":
-                val = strip_refs(mb.trace(t["args"][1]))
-                src = strip_refs(val[2][0]) if val[0] == "call" and val[1] and val[1]["path"] == CLONE else None
-                pushed.append(src)
-        inner_live = [bi for bi in inner_nexts if bi in bl]
-        # `acc.extend(members.iter().cloned())` / extend_from_slice(members) / append(&mut members.clone()): all members, in order
-        extended = []
-        for bi in sorted(bl):
-            t = mb.blocks[bi]["term"]
-            if t["k"] == "Call" and re.search(r"Vec::<T, A>::(extend|extend_from_slice)$|as std::iter::Extend<.*>>::extend$", callee_path(t) or ""):
-                src = strip_refs(mb.trace(t["args"][1]))
-                plumbing = not expr_mentions(src, lambda y: y[0] == "call" and y[1] is not None and not re.search(r"(::iter|::into_iter|::cloned|::copied|::to_vec|::as_slice|Clone>::clone|Deref>::deref|IntoIterator>::into_iter|::next)$", y[1]["path"]))
-                payload = expr_mentions(src, lambda y: y[0] == "downcast" and y[2] == "Array" and is_elem(y[1]))
-                extended.append(plumbing and payload)
-        if v == "Array" and extended:
-            good = extended == [True] and not pushed and not inner_live
-            what = "all its elements (extend)" if good else "pushes %s, extends %s" % ([show_expr(x)[:50] if x else None for x in pushed], extended)
-        elif v == "Array":
-            good = len(pushed) == 1 and pushed[0] is not None and len(inner_live) == 1 and is_elem(pushed[0], inner_live[0]) \
-                and expr_mentions(inner_nexts[inner_live[0]], lambda y: y[0] == "downcast" and y[2] == "Array" and is_elem(y[1]))
-            what = "a clone of each element" if good else "%s (inner loops: %d)" % ([show_expr(x)[:50] if x else None for x in pushed], len(inner_live))
-        else:
-            good = len(pushed) == 1 and pushed[0] is not None and is_elem(pushed[0]) and not inner_live and not extended
-            what = "a clone of itself" if good else "%s" % [show_expr(x)[:50] if x else None for x in pushed]
-        ctx.check(good, "K1.contribution", "merge: a %s operand contributes %s (%s)" % (v, "its elements" if v == "Array" else "itself", cfg),
-                  "in merge a %s operand contributes %s" % (v, what), where=mb.where(), fn=mb.key, nontrivial=True, sample={"kind": v, "contributes": what})
-    return True
+        Rv, tv = XS.read_vector(facts, mb, vecp, v)
+        key = "merge: a %s operand contributes %s (%s)" % (v, "its elements" if v == "Array" else "itself", cfg)
+        per = []        # what one operand contributes, per alternative
+        for t in tv:
+            tops = t[1] if t[0] == "seq" else [t]
+            for x in tops:
+                if x == ("operands",):
+                    per.append(("one", "x"))
+                elif x[0] == "for" and x[1] == ("operands",):
+                    for a in x[3]:
+                        per.append(("members", "x") if a == ("members", x[2]) else (("one", "x") if a == ("one", x[2]) else a))
+                elif x[0] == "empty":
+                    continue
+                elif x[0] == "for" and tv is not None and XS.find(x[1], "unknown"):
+                    per.append(("unknown", "source"))
+                elif x[0] == "for" or x[0] in ("members", "adapted", "other", "exit"):
+                    continue        # a pass over something else: reported by K1.over-operands
+                else:
+                    per.append(x)
+        want = ("members", "x") if v == "Array" else ("one", "x")
+        shown = " | ".join(sorted({("its elements" if a == ("members", "x") else "itself" if a == ("one", "x") else Rv.show(a)) for a in per})) or "nothing"
+        bad = [a for a in per if a != want]
+        if not per and (wrong_src or unknown_src):
+            continue
+        if bad and all(XS.find(a, "unknown") or a[0] == "unknown" for a in bad):
+            ctx.unread("K1.contribution", key, "what a %s operand contributes is not read: %s" % (v, shown), where=mb.where(), fn=mb.key)
+            continue
+        ctx.check(bool(per) and not bad, "K1.contribution", key, "in merge a %s operand contributes %s" % (v, shown), where=mb.where(), fn=mb.key, nontrivial=True,
+                  sample={"kind": v, "contributes": shown})
 
 
 def run(ctx):
@@ -182,60 +175,8 @@ def run(ctx):
         ctx.check(not rec, "K1.not-recursive", "merge does not call itself (%s)" % cfg, "merge is recursive", where=mb.where(), fn=mb.key, nontrivial=True)
         for s in mu.calls(lambda c: MUTATORS.search(c["path"]) is not None):
             ctx.fail("K1.append-only", "merge|%s" % callee_path(s.term).rsplit("::", 1)[1], "merge edits its result with %s (order / multiplicity would change)" % callee_path(s.term), where=s.where(), fn=s.body.key)
-        # the pass over the operands
-        consumers = [s for s in mu.calls_path(r"(Iterator::|Iterator>::)(fold|for_each|try_fold|map|flat_map)$") if s.body.key == mb.key]
-        if not consumers and merge_loop_form(ctx, facts, roles, mb, vecp, cfg):
-            consumers = None
-        if consumers is not None:
-            ctx.check(len(consumers) == 1, "K1.one-pass", "merge makes one pass over its operands (%s)" % cfg, "%d iterator consumers in merge" % len(consumers), where=mb.where(), fn=mb.key, nontrivial=True)
-        for s in consumers or []:
-            it = strip_refs(mb.trace(s.term["args"][0]))
-            while it[0] == "call" and it[1] and re.search(r"IntoIterator>::into_iter$|::iter$|Deref>::deref$", it[1]["path"]):
-                it = strip_refs(it[2][0])
-            ctx.check(it == ("arg", vecp), "K1.over-operands", "the pass iterates the operand list itself (%s)" % cfg,
-                      "merge iterates %s instead of its operand list: some operand shapes are rewritten before flattening (more than one level can be spliced)" % show_expr(it)[:100], where=s.where(), fn=mb.key, nontrivial=True)
-        # per operand kind
-        hosts = [] if consumers is None else [(b, sc) for b in mu.bodies for sc in kind_of_param_switches(b) if b.key != mb.key or True]
-        hosts = [(b, sc) for (b, sc) in hosts if sc[0] in ("arg", "carg") or sc[0] == "arg"]
-        if consumers is not None:
-            ctx.check(len(hosts) == 1, "K1.kind-switch", "merge inspects the kind of each operand once (%s)" % cfg, "%d switches on a value's kind in merge — more than the outer kind of an operand is inspected" % len(hosts), where=mb.where(), fn=mb.key, nontrivial=True)
-        for (hb, sc) in hosts[:1]:
-            sc_x = strip_refs(hb._xsub(sc, 0))
-            for v in facts.variants(VALUE):
-                restrict = P.specialise_unit(roles, hb.key, lambda e, a, _v=v, _sc=sc: _v if (a == VALUE and e == _sc) else None)
-                pushed = []
-                iters = 0
-                for k, bl in restrict.items():
-                    bb = facts.body(k)
-                    for bi in sorted(bl):
-                        t = bb.blocks[bi]["term"]
-                        if t["k"] != "Call" or not callee_of(t):
-                            continue
-                        p = callee_of(t)["path"]
-                        if p == "std::vec::Vec::<T, A>::push":
-                            val = strip_refs(bb.xtrace(t["args"][1]))
-                            src = strip_refs(val[2][0]) if val[0] == "call" and val[1] and val[1]["path"] == CLONE else None
-                            pushed.append((bb, src))
-                        if re.search(r"(Iterator::|Iterator>::)(for_each|fold|map)$", p) and bb.key != mb.key:
-                            iters += 1
-                        if re.search(r"Vec::<T, A>::(extend|extend_from_slice|append)$|as std::iter::Extend<.*>>::extend$", p):
-                            src = strip_refs(bb.xtrace(t["args"][1]))
-                            x = src
-                            plumbing_only = True
-                            while x[0] == "call" and x[1]:
-                                if not re.search(r"::(iter|cloned|copied|into_iter|deref|to_vec|clone)$", x[1]["path"]):
-                                    plumbing_only = False
-                                x = strip_refs(x[2][0])
-                            from_payload = x[0] == "field" and x[1][0] == "downcast" and x[1][2] == "Array"
-                            pushed.append((bb, ("extend", src) if (plumbing_only and from_payload) else ("extend?", src)))
-                if v == "Array":
-                    good = len(pushed) == 1 and ((pushed[0][1] is not None and pushed[0][1][0] == "carg" and pushed[0][0].key != hb.key and iters == 1) or (pushed[0][1] is not None and pushed[0][1][0] == "extend"))
-                    what = "a clone of each element" if good else "%s (inner passes: %d)" % ([show_expr(x[1])[:50] if x[1] else None for x in pushed], iters)
-                else:
-                    good = len(pushed) == 1 and pushed[0][1] in (sc, sc_x)
-                    what = "a clone of itself" if good else "%s" % [show_expr(x[1])[:50] if x[1] else None for x in pushed]
-                ctx.check(good, "K1.contribution", "merge: a %s operand contributes %s (%s)" % (v, "its elements" if v == "Array" else "itself", cfg),
-                          "in merge a %s operand contributes %s" % (v, what), where=hb.where(), fn=hb.key, nontrivial=True, sample={"kind": v, "contributes": what})
+        # the pass over the operands and the contribution of each kind of operand
+        merge_contributions(ctx, facts, mb, vecp, cfg)
 
         # ================= in
         ib, ie = roles.fn_of("in")
